@@ -38,7 +38,7 @@ import (
 )
 
 const (
-	hangAfter  = 25 * time.Second // a decoder call on < 100 KB that has not returned by then is not coming back
+	hangAfter  = 20 * time.Second // a decoder call on < 100 KB that has not returned by then is not coming back
 	hangHeapMB = 200              // ... nor is one whose heap grew by this much
 	exitLoop   = 7
 )
@@ -76,6 +76,19 @@ func heapMB() uint64 {
 
 // guarded runs fn in its own goroutine. status: "" (returned), "panic", "loop". alloc = bytes allocated by fn.
 func guarded(fn func()) (status string, alloc uint64) {
+	status, alloc = guarded1(fn)
+	return status, clampBytes(alloc)
+}
+
+// clampBytes keeps byte counts inside the 32-bit integers of TLC.
+func clampBytes(n uint64) uint64 {
+	if n > 2000000000 {
+		return 2000000000
+	}
+	return n
+}
+
+func guarded1(fn func()) (status string, alloc uint64) {
 	type res struct {
 		p     bool
 		alloc uint64
